@@ -38,4 +38,5 @@ CONF = dict(
  'Current ids never decrease; key handed out at t is returned unchanged by every Get up to t + 48 h and by none after generation + 72 h.'),
     timeout_quick=600,
     timeout_thorough=3000,
+    min_cases={'prov.conc': 270, 'prov.hist': 780, 'prov.lock': 1, 'prov.valid': 900},
 )
